@@ -44,6 +44,11 @@ func newDataStoreSet(l lane.Lane, basePath string, phook *DispatchHook) *dataSto
 		fileBase += ".db"
 
 		filepath.WalkDir(dir, func(path string, d fs.DirEntry, err error) error {
+			if err != nil {
+				// the directory does not exist yet (first start with this path) or cannot be
+				// read: there is nothing to load from it
+				return nil
+			}
 			if !d.IsDir() {
 				if strings.HasPrefix(d.Name(), fileBase) {
 					n64, parseErr := strconv.ParseInt(d.Name()[len(fileBase):], 10, 32)
